@@ -12,6 +12,7 @@ from . import qinst
 from .engine import Exec, Obligation, has_quant
 from .values import OutsideSubset, RaiseEx
 
+OFFSETS = True
 QUICK_TIMEOUT_MS = int(os.environ.get("PYVC_VC_TIMEOUT_MS", "20000"))
 
 
@@ -49,6 +50,15 @@ def _solve1(pc, goal, timeout_ms, want_model=True, use_cvc5=True):
             s.set("timeout", timeout_ms)
             s.add(*qf)
             r = s.check()
+            if r == z3.sat and OFFSETS:
+                # second attempt with the +-1 neighbours of the index terms (shifted lists)
+                qf, _ = qinst.to_qf(fs, offsets=True)
+                if os.environ.get("PYVC_DEBUG"):
+                    print("qf-stage offsets retry", _)
+                s = z3.Solver()
+                s.set("timeout", timeout_ms)
+                s.add(*qf)
+                r = s.check()
             if r == z3.unsat:
                 return "unsat", time.time() - t0, "z3-qf", None
             if r == z3.sat:
@@ -212,7 +222,9 @@ def verify_function(index, theory, contract, use_contracts=(), contracts=None, l
                 report.add(f"{q}#raises.{oc.value.cls_name}", st, secs, be, model=_fmt(m, describe, args) if st in ("sat", "candidate") else None,
                            detail={"case": case_name, "raised": oc.value.cls_name, "msg": oc.value.msg} if st != "unsat" else None)
                 continue
-            for nm, cl in contract.ensures(ex1, args, oc.value):
+            with oc:
+                clauses = contract.ensures(ex1, args, oc.value)
+            for nm, cl in clauses:
                 if not mine():
                     continue
                 st, secs, be, m = solve(oc.pc, cl, timeout_ms)
@@ -268,7 +280,9 @@ def verify_cases(index, theory, qname, cases, use_contracts=(), contracts=None, 
                 report.add(f"{qname}#raises.{oc.value.cls_name}", st, secs, be, model=_fmt(m, describe, case.get("args")) if st in ("sat", "candidate") else None,
                            detail={"case": case["name"], "raised": oc.value.cls_name, "msg": oc.value.msg} if st != "unsat" else None)
                 continue
-            for nm, cl in case["post"](ex1, oc.value):
+            with oc:
+                clauses = case["post"](ex1, oc.value)
+            for nm, cl in clauses:
                 st, secs, be, m = solve(oc.pc, cl, timeout_ms)
                 report.add(f"{qname}#{nm}", st, secs, be, model=_fmt(m, describe, case.get("args"), oc.value) if st in ("sat", "candidate") else None,
                            detail={"case": case["name"]} if st != "unsat" else None)
